@@ -109,10 +109,13 @@ def main():
         res_path = "/var/tmp/lane-seed-results.json"
         res = json.load(open(res_path)) if os.path.exists(res_path) else {}
         for sid in sys.argv[3:]:
+            prop = sid[:3]
+            if ":" in sid:
+                sid, prop = sid.split(":")
             patch = "/verif/seeded/%s/patch.diff" % sid
             if not os.path.exists(patch):
                 patch = "/tmp/wt/%s-out/patch.diff" % sid
-            q.put((sid, patch, [sid[:3]], {"file": sid}))
+            q.put((sid + ":" + prop, patch, [prop], {"file": sid}))
     lock = threading.Lock()
     ths = [threading.Thread(target=worker, args=(k, q, res, lock, res_path)) for k in range(OFF, OFF + n)]
     for t in ths:
